@@ -31,15 +31,12 @@ static char g_unesc_ret;      /* ... that translation */
 static _Bool g_unesc_zero;    /* the escape table returned 0: the byte behind the backslash is not an escape */
 static _Bool g_hex_invalid;   /* parseHex4 reported InvalidInput */
 static unsigned g_u_n;        /* \uXXXX groups decoded so far (parseHex4 returned Ok) */
-static unsigned g_hex_reads;  /* read() calls made inside parseHex4 (part of g_reads) */
-static unsigned g_cp_app;     /* bytes appended by encodeCodepoint (part of g_app_n) */
+static unsigned g_acc;        /* the bytes the routine must have fetched for what it did so far: one per plain byte appended, two per
+                                 two-character escape, two (backslash, u) plus parseHex4's own per \uXXXX group */
 static _Bool g_app_hi, g_app_ctl; /* a byte >= 0x80 / the control byte 0x1F was appended as a plain byte */
 static _Bool g_u_kept;        /* nouni: a backslash was appended while the 'u' behind it was waiting in the latch: \u kept verbatim */
-#define APP_GHOST_ASSIGNS g_app_n, g_app_last, g_builder_valid, g_app_hi, g_app_ctl, g_unesc_pending
-#define PQ_GHOST_ASSIGNS APP_GHOST_ASSIGNS, g_esc_n, g_unesc_ret, g_unesc_zero, g_hex_invalid, g_u_n, g_hex_reads, g_cp_app
-/* bytes the routine itself fetched / appended (without those of the parseHex4 / encodeCodepoint callees) */
-#define PQ_OWN_READS (g_reads - g_hex_reads)
-#define PQ_OWN_APPENDS (g_app_n - g_cp_app)
+#define APP_GHOST_ASSIGNS g_app_n, g_app_last, g_builder_valid, g_app_hi, g_app_ctl, g_unesc_pending, g_acc
+#define PQ_GHOST_ASSIGNS APP_GHOST_ASSIGNS, g_esc_n, g_unesc_ret, g_unesc_zero, g_hex_invalid, g_u_n
 #if defined(CFG_nouni) && defined(APP_LOG)
 static unsigned char g_app_buf[16]; /* the first 16 appended bytes (unit jsonscan_nouni: loops unwound, no loop contracts) */
 #endif
@@ -94,7 +91,7 @@ void StringBuilder__append__char(struct StringBuilder *self, char c) {
   if (g_app_n < 16) g_app_buf[g_app_n] = (unsigned char)c;
 #endif
   if (g_app_n == g_fail_at) g_builder_valid = 0; /* a failed resize */
-  g_app_n++; g_app_last = (unsigned char)c;
+  g_app_n++; g_app_last = (unsigned char)c; g_acc++;
 }
 _Bool StringBuilder__isValid(struct StringBuilder *self) { (void)self; return g_builder_valid; }
 
@@ -107,9 +104,9 @@ unsigned int JsonDeserializer_StubReader__parseHex4(JD *self, unsigned short *re
   unsigned which = in_u8() % 3;
   *result = in_u16();
   unsigned k = 1 + in_u8() % 4;
-  g_reads += k; g_hex_reads += k;
+  g_reads += k; g_acc += k;
   g_have_last = 1;
-  if (which == 0) { self->latch_.loaded_ = 0; g_last = '0'; g_ended = 0; g_u_n++; return Ok; }
+  if (which == 0) { self->latch_.loaded_ = 0; g_last = '0'; g_ended = 0; g_u_n++; g_acc += 2; return Ok; }
   self->latch_.loaded_ = 1;
   if (which == 1) { self->latch_.current_ = 0; g_last = 0; g_ended = 1; return IncompleteInput; }
   char c = in_char();
@@ -123,7 +120,7 @@ void Utf8__encodeCodepoint_StringBuilder(unsigned int cp, struct StringBuilder *
   (void)cp; (void)b;
   unsigned k = 1 + in_u8() % 4;
   if (g_fail_at - g_app_n < k) g_builder_valid = 0; /* the failing append lies among these */
-  g_app_n += k; g_cp_app += k;
+  g_app_n += k;
 }
 /* unescapeChar: the RFC 8259 table plus the single quote, 0 for anything else.  [unicode/escape_tables] */
 static char spec_unescape(char c) {
@@ -135,7 +132,7 @@ static char spec_unescape(char c) {
 }
 char EscapeSequence__unescapeChar(char c) {
   char r = spec_unescape(c);
-  if (r) { g_esc_n++; g_unesc_pending = 1; g_unesc_ret = r; }
+  if (r) { g_esc_n++; g_acc++; g_unesc_pending = 1; g_unesc_ret = r; }
   else g_unesc_zero = 1;
   return r;
 }
@@ -171,7 +168,7 @@ static JD *mk_state(unsigned char allowed_class) {
   g_app_n = 0; g_app_last = 0;
   g_sq_on = 0;
   g_jd = d; g_esc_n = 0; g_u_kept = 0; g_unesc_pending = 0; g_unesc_ret = 0; g_unesc_zero = 0; g_hex_invalid = 0;
-  g_u_n = 0; g_hex_reads = 0; g_cp_app = 0; g_app_hi = 0; g_app_ctl = 0;
+  g_u_n = 0; g_acc = 0; g_app_hi = 0; g_app_ctl = 0;
   return d;
 }
 static void settle(JD *d) { /* judge the consumption of the last delivered byte */
@@ -353,9 +350,9 @@ void h_parseQuoted(void) {
    * the closing quote is not appended.  Nothing is dropped, nothing is doubled. */
   COVER(err == Ok && g_u_n > 0 && g_esc_n > 0);
 #ifdef CANARY_PARSEQUOTED
-  CHECK(err != Ok || PQ_OWN_READS == PQ_OWN_APPENDS + g_esc_n + 2u * g_u_n + 1u + (g_app_n == 1), "C01: every plain byte between the quotes is appended exactly once (a two-character escape gives one byte, backslash-u the bytes of encodeCodepoint)");
+  CHECK(err != Ok || g_acc + 1u + (g_app_n == 1) == g_reads, "C01: every plain byte between the quotes is appended exactly once (a two-character escape gives one byte, backslash-u the bytes of encodeCodepoint)");
 #else
-  CHECK(err != Ok || PQ_OWN_READS == PQ_OWN_APPENDS + g_esc_n + 2u * g_u_n + 1u, "C01: every plain byte between the quotes is appended exactly once (a two-character escape gives one byte, backslash-u the bytes of encodeCodepoint)");
+  CHECK(err != Ok || g_acc + 1u == g_reads, "C01: every plain byte between the quotes is appended exactly once (a two-character escape gives one byte, backslash-u the bytes of encodeCodepoint)");
 #endif
 #endif
 }
@@ -433,10 +430,11 @@ void h_parseNonQuoted(void) {
   settle(d);
   COVER(err == Ok); COVER(err == InvalidInput); COVER(err == NoMemory);
   CHECK(err == Ok || err == InvalidInput || err == NoMemory, "parseNonQuotedString return codes");
-  CHECK(SAFE(d) && LATCHED(d), "C03/C16: one look-ahead byte stays in the latch, SAFE");
+  /* (after NoMemory nothing is parsed any more: whether the routine stopped before or behind the look-ahead read is left open) */
+  CHECK(SAFE(d) && (LATCHED(d) || err == NoMemory), "C03/C16: one look-ahead byte stays in the latch, SAFE");
   CHECK(!g_bad_consumed, "only identifier bytes are consumed");
   CHECK((err == InvalidInput) == !first_ok, "C10: an empty unquoted key is InvalidInput, otherwise not");
-  CHECK(err == InvalidInput || g_app_n == g_reads, "C01: every consumed byte is appended to the key (one append per byte)");
+  CHECK(err == InvalidInput || g_app_n == g_reads || (err == NoMemory && !LATCHED(d) && g_app_n == g_reads + 1), "C01: every consumed byte is appended to the key (one append per byte)");
   COVER(err == NoMemory && !valid0); COVER(err == NoMemory && valid0);
   CHECK(err != Ok || g_builder_valid, "C05: Ok only if the builder is valid at the end (it may be invalid from the start or fail at any append)");
   CHECK(err != NoMemory || !g_builder_valid, "C05/C10: NoMemory only if the builder is invalid");
